@@ -32,7 +32,7 @@ func c05ODSWidths() []int {
 // so that every amount from none to all-but-one occurs.
 func c05GenSquare(t *rapid.T, widths []int) *vk.Square {
 	if rapid.IntRange(0, 3).Draw(t, "tailsweep") == 0 {
-		ods := rapid.SampledFrom([]int{1, 2, 4}).Draw(t, "sweep.ods")
+		ods := rapid.SampledFrom([]int{1, 2, 2, 4, 4, 4}).Draw(t, "sweep.ods")
 		area := ods * ods
 		tail := rapid.IntRange(0, area-1).Draw(t, "sweep.tail")
 		data := area - tail
